@@ -404,7 +404,10 @@ def errors(g, thorough, count):
         ("start:", "begin:"), ("start:", ""), ("v: db 5", "start: db 5"), ("mov ax, 1", "shl ax, 256"), ("mov ax, 1", "print mem 0xFFFFF : 1"),
         ("v: db 5", "v: db 256"), ("v: db 5", "v: db -129"), ("w: dw 7", "w: dw 65536"), ("w: dw 7", "w: dw [1,65536]"), ("v: db 5", "set 65536"),
         ("mov ax, 1", "mov ax, 1 mov"), ("mov ax, 1", "mov [bx], 5"), ("mov ax, 1", "push al"), ("mov ax, 1", "pop cs"),
-        ("mov ax, 1", "m1(ax)"), ("inc bx", "def g {\nnop\n}"), ("mov ax, 1", "rep cmps byte"), ("mov ax, 1", "repe movs byte"),
+        ("mov ax, 1", "m1(ax)"), ("jnz lab", "jnz lab\njmp nolabel"), ("jnz lab", "jnz lab\njz lab\nloop nowhere"),
+        ("mov ax, 1", "mov ds, al"), ("mov ax, 1", "mov es, bh"), ("mov ax, 1", "mov al, ds"), ("mov ax, 1", "mov byte [bx], ds"), ("mov ax, 1", "xchg ax, bl"),
+        ("mov ax, 1", "add al, bx"), ("mov ax, 1", "push ah"), ("mov ax, 1", "pop bl"), ("mov ax, 1", "lea al, word [bx]"), ("mov ax, 1", "mul 5"),
+        ("mov ax, 1", "shl ax, bl"), ("mov ax, 1", "cmp byte [bx], byte [si]"), ("mov ax, 1", "mov cs, 5"), ("mov ax, 1", "mov ds, 5"), ("inc bx", "def g {\nnop\n}"), ("mov ax, 1", "rep cmps byte"), ("mov ax, 1", "repe movs byte"),
     ]
     out = [base]
     for a, b in muts:
@@ -427,19 +430,27 @@ def macros(g, thorough, count):
         lib = []
         for i, n in enumerate(names):
             np_ = r.randrange(0, 4)
-            params = r.sample(["a", "ab", "abc", "b", "x", "ax1", "p", "pp", "mov", "m"], np_)
+            params = r.sample(["a", "ab", "abc", "b", "x", "ax1", "p", "pp", "mov", "m", "r", "r_hi", "p_", "_p", "a_1", "x_"], np_)
             params = [p for p in params if p not in ("mov",)] if r.random() < 0.9 else params
             toks = []
             for _ in range(r.randrange(1, 4)):
                 op = r.choice(["mov", "add", "xchg", "cmp"])
                 a = r.choice(params + ["ax", "bx"]) if params else "ax"
                 b = r.choice(params + ["cx", "5", "dx"]) if params else "1"
+                if params and r.random() < 0.25:
+                    # a body word that merely CONTAINS a parameter, delimited by '_' or a digit (must stay as it is: it is then an
+                    # undefined name and the use is refused, or - for a register-like word - nothing at all is replaced)
+                    b = r.choice(params) + r.choice(["_hi", "_2", "1", "x"]) if r.random() < 0.5 else r.choice(["q_", "z9_"]) + r.choice(params)
                 toks.append(f"{op} {a},{b}")
             if i > 0 and r.random() < 0.6:
                 callee = r.choice(names[:i] if r.random() < 0.8 else names)
                 toks.append(f"{callee}({','.join(r.choice(params + ['ax']) for _ in range(3))})")
             if params and r.random() < 0.2:
                 toks.append(f"{r.choice(params)}(ax)")          # macro passed by name
+            if i > 0 and r.random() < 0.35:
+                # a completed inner use followed by a (possibly recursive) second use
+                toks.append(f"{names[0]}({','.join(['ax'] * 3)})")
+                toks.append(f"{r.choice(names)}({','.join(r.choice(params + ['bx']) for _ in range(3))})")
             lib.append(f"macro {n}({','.join(params)}) -> {' '.join(toks)} <-")
         uses = []
         for _ in range(r.randrange(1, 4)):
@@ -508,6 +519,10 @@ def run_prog(g, with_int3=False, with_tf=False):
             seq += [r.choice(SAFE_BODY) for _ in range(r.randrange(1, 4))]
         if with_int3 and r.random() < 0.4:
             seq.append("int 3")
+    nested = ""
+    if r.random() < 0.3:
+        nested = "macro m_in(a) -> print reg inc a <-\nmacro m_out(a) -> m_in(a) print flags m_in(a) dec a <-\n"
+        seq.insert(r.randrange(1, len(seq) + 1), r.choice(["m_out(bx)", "m_in(dx)", "m_out(ax)\nm_in(cx)"]))
     if with_tf:
         seq.insert(1, "mov ax, 0x0100\npush ax\npopf")
     seq.append(labels[nblocks] + ":")
@@ -518,7 +533,7 @@ def run_prog(g, with_int3=False, with_tf=False):
     else:
         # start in the middle: everything before it must not run
         main = "mov ax, 0xBAD\nprint reg\nstart:\n" + main
-    src = "\n".join(dlines) + "\n" + "\n".join(procs) + "\n" + main + r.choice(["\n", "", "\n\n; end\n"])
+    src = "\n".join(dlines) + "\n" + nested + "\n".join(procs) + "\n" + main + r.choice(["\n", "", "\n\n; end\n"])
     if r.random() < 0.3:
         src = src.replace("\n", " ; c\n", r.randrange(1, 4))
     return src
@@ -533,6 +548,9 @@ def cli_cases(g, group, thorough):
         for f in sorted(os.listdir(os.path.join(REPO, "examples"))):
             if f.endswith(".s"):
                 out.append(("-", open(os.path.join(REPO, "examples", f)).read(), "abc\nhello\n"))
+    elif group == "macros":
+        for c in macros(g, thorough, n(300, 3000)):
+            out.append(("-", c, ""))
     elif group == "data":
         for c in data_cases(g, thorough, n(400, 3000)):
             out.append(("-", c.replace("hlt\n", "print mem 0 -> 40\nhlt\n"), ""))
@@ -547,7 +565,9 @@ def cli_cases(g, group, thorough):
             out.append(("-", "start:\nprint mem %d -> %d\nhlt\n" % (min(a, 1048575 - 3), min(a, 1048575 - 3) + 2), ""))
     elif group == "prompt":
         cmds = ["n\n", "next\n", "N\n", " next \n", "print reg\n", "print flags\n", "print mem 0 -> 20\n", "print mem 5:3\n", "print mem :7\n",
-                "PRINT REG\n", "garbage\n", "\n", "print\n", "print mem 9 -> 2\n", "print mem 1048575:5\n", "n n\n", "nextt\n", "print mem 0x10 -> 0x20\n"]
+                "PRINT REG\n", "garbage\n", "\n", "print\n", "print mem 9 -> 2\n", "print mem 1048575:5\n", "n n\n", "nextt\n", "print mem 0x10 -> 0x20\n",
+                "print mem 1048575 : 1\n", "print mem 1048570:6\n", "print mem 1048575 : 0\n", "print mem 1048576 -> 1048580\n", "print mem 1048580 : 2\n",
+                "print mem : 1048580\n", "print mem 2097151 -> 2097151\n", "print mem 0 : 1048576\n", "print mem 1048560 : 15\n", "print mem 1048560 : 16\n"]
         for i in range(n(250, 2500)):
             mode = i % 4
             src = run_prog(g, with_int3=(mode == 1), with_tf=(mode == 2))
@@ -565,16 +585,25 @@ def cli_cases(g, group, thorough):
                 script += "n"            # premature end of input, last line unterminated
             out.append((flag, src, script))
     elif group == "ints":
-        for _ in range(n(250, 2500)):
+        for case_i in range(n(600, 4000)):
             ah = r.choice([1, 2, 0x0A, 0x0A, 0x13, 0x0A, r.randrange(256)])
             which = r.choice(["0x21", "0x10"])
-            cap = r.choice([0, 1, 2, 3, 5, 255])
-            seg = r.choice([0, 0, 0x1000, 0xFFFF, 0xFFF0, r.randrange(65536)])
-            off = r.choice([0, 5, 0xFFF0, 0xFFFD, 0xFFFF, r.randrange(65536)])
+            top = case_i % 6 == 0          # buffers that straddle the end of the 1 MB space
+            if top:
+                ah = r.choice([0x0A, 0x0A, 0x13])
+                which = "0x21" if ah == 0x0A else "0x10"
+            cap = r.choice([0, 1, 2, 3, 5, 10, 255])
+            seg = r.choice([0, 0, 0x1000, 0xFFFF, 0xFFFF, 0xFFF0, r.randrange(65536)])
+            off = r.choice([0, 5, 8, r.randrange(16), 0xFFF0, 0xFFFD, 0xFFFF, r.randrange(65536)])
+            if top:
+                seg, off, cap = 0xFFFF, r.randrange(0, 16), r.choice([10, 20, 255])
             pre = f"mov ax, {seg}\nmov ds, ax\nmov es, ax\nmov bx, {off}\nmov byte [bx], {cap}\nmov dx, bx\nmov bp, bx\n"
-            pre += f"mov cx, {r.choice([0,1,3,7,40])}\nmov dl, {r.choice([0,1,4,65,200,255])}\nmov al, {r.choice([65,66,10,200,0])}\nmov ah, {ah}\nint {which}\n"
+            pre += f"mov cx, {r.choice([0,1,3,7,40,255,256,300,1000,4097])}\nmov dl, {r.choice([0,1,4,65,200,255])}\nmov al, {r.choice([65,66,10,200,0])}\n" + ("mov dx, bx\n" if ah == 0x0A and which == "0x21" else "") + f"mov ah, {ah}\nint {which}\n"
             post = "print reg\nmov ax, 0\nmov ds, ax\nprint mem %d : 12\nprint flags\n" % (((seg * 16 + off) % 1048576) if ((seg * 16 + off) % 1048576) + 12 < 1048576 else 0)
-            stdin = r.choice(["", "\n", "a\n", "ab", "abc\n", "hello world\n", "x" * 300 + "\n", "line1\nline2\n", "\r\n", "tab\there\n"])
+            stdin = r.choice(["", "\n", "a\n", "ab", "abc\n", "hello world\n", "0123456789\n", "x" * 300 + "\n", "line1\nline2\n", "\r\n", "tab\there\n",
+                              "".join(chr(65 + k % 26) for k in range(r.randrange(8, 40))) + "\n"])
+            if top:
+                stdin = "".join(chr(65 + k % 26) for k in range(r.randrange(12, 60))) + "\n"
             out.append(("-", "start:\n" + pre + post + ("mov ah, 1\nint 0x21\nprint reg\n" if r.random() < 0.3 else ""), stdin))
     elif group == "prints":
         for _ in range(n(250, 2500)):
@@ -587,7 +616,9 @@ def cli_cases(g, group, thorough):
             cmds = [f"print mem {g.num(a, a)} -> {g.num(b, b)}", f"print mem {g.num(a, a)} : {g.num(ln, ln)}" if a + ln < 1048576 else "print reg",
                     f"print mem : {ln}", "print reg", "print flags", f"PRINT MEM {b} -> {a}", f"print mem {1048576 + a} -> {1048576 + b}",
                     f"print mem {g.num(a,a)}->{g.num(b,b)}"]
-            seg = r.choice([0, 0, 1, 0xFFFF, 0xF000, r.randrange(65536)])
+            seg = r.choice([0, 0, 1, 0xFFFF, 0xFFFF, 0xF000, r.randrange(65536)])
+            if seg == 0xFFFF:
+                cmds += ["print mem : 15", "print mem : 16", "print mem :17", "PRINT MEM : 0xF"]
             body = setup + f"mov ax, {seg}\nmov ds, ax\n" + "\n".join(r.sample(cmds, 4)) + "\nprint reg\n" + r.choice(cmds) + "\n"
             out.append(("-", "\n".join(dl) + "\nstart:\n" + body, ""))
     elif group == "diag":
@@ -595,6 +626,7 @@ def cli_cases(g, group, thorough):
         for c in base_cases:
             out.append(("-", c, ""))
             out.append(("-", "; header comment\n\n" + c.rstrip("\n"), ""))       # shifted lines, no trailing newline
+            out.append(("-", r.choice(["\n", ";c\n", " \n"]) + c, ""))              # an empty first line: messages about line 2
         # single-token corruptions at every token position of a valid program
         valid = "v: db 5\nw: dw 7\nmacro m(a) -> inc a <-\ndef f {\ninc bx\n}\nstart:\nmov ax, 1\nm(cx)\nadd ax, word w\njnz lab\ncall f\nlab:\nprint reg\nint 3\nhlt"
         toks = re.findall(r"\S+|\s+", valid)
@@ -621,7 +653,16 @@ def cli_cases(g, group, thorough):
                 else:
                     a, b = sorted([r.randrange(len(s) + 1), r.randrange(len(s) + 1)])
                     s[pos:pos] = s[a:b]
-            out.append((r.choice(["-", "-", "i"]), "".join(s), r.choice(["", "n\n" * 50, "q\n"])))
+            out.append((r.choice(["-", "-", "i"]), "".join(s), r.choice(["", "n\n" * 50, "q\n", "print mem 1048575 : 1\nn\nprint mem 1048576 -> 1048577\n" + "n\n" * 50])))
+        for pc in ["print mem 1048575 : 1", "print mem 1048570 : 6", "print mem 1048576 -> 1048580", "print mem : 1048576", "print mem 4294967295 : 1",
+                   "print mem 18446744073709551615 -> 1", "print mem 99999999999999999999 -> 1", "print mem 1048560 : 15"]:
+            out.append(("i", "start:\nmov ax, 0xFFFF\nmov ds, ax\nprint mem :15\nprint mem :16\nnop\n", pc + "\nn\n" + pc.upper() + "\n" + "n\n" * 10))
+        # macro recursion families (must be diagnosed, not expanded for ever)
+        for body in ["macro a(x) -> a(x) <-", "macro a(x) -> b(x) <-\nmacro b(x) -> a(x) <-", "macro i(x) -> inc x <-\nmacro a(x) -> i(x) a(x) <-",
+                     "macro i(x) -> inc x <-\nmacro b(x) -> i(x) <-\nmacro c(x) -> a(x) <-\nmacro a(x) -> b(x) c(x) <-",
+                     "macro n(x) -> nop <-\nmacro a(f,g) -> n(ax) f(g,g) <-"]:
+            use = "a(a,n)" if "f,g" in body else "a(ax)"
+            out.append(("-", body + "\nstart:\n" + use + "\nhlt\n", ""))
         def chain(k):
             return "macro m0(a) -> inc a <-\n" + "".join(f"macro m{i}(a) -> m{i-1}(a) <-\n" for i in range(1, k)) + f"start:\nm{k-1}(ax)\nprint reg\n"
         out.append(("-", chain(24), ""))
